@@ -382,6 +382,33 @@ fn conv_unsigned(e: &Elem, max: u64) -> Conv {
     }
 }
 
+/// Is converting element `e` to `ty` a data type error whatever the value is? (Only the
+/// combinations the conversions' documentation fixes; everything else is value-level.)
+pub fn clearly_wrong_type(ty: PullTy, e: &Elem) -> bool {
+    let container = matches!(e, Elem::Str { .. } | Elem::Blk { .. } | Elem::BlkIndef { .. } | Elem::Expr(_));
+    match ty {
+        PullTy::U8
+        | PullTy::I8
+        | PullTy::U16
+        | PullTy::I16
+        | PullTy::U32
+        | PullTy::I32
+        | PullTy::U64
+        | PullTy::I64
+        | PullTy::Usize
+        | PullTy::Isize
+        | PullTy::F32
+        | PullTy::F64
+        | PullTy::Bool => container,
+        PullTy::Bytes => !matches!(e, Elem::Str { .. } | Elem::Raw(_)),
+        PullTy::Str => matches!(e, Elem::Chr(_) | Elem::Dec(_) | Elem::DecSuf { .. } | Elem::NonDec { .. } | Elem::Expr(_)),
+        PullTy::Arb => !matches!(e, Elem::Blk { .. } | Elem::BlkIndef { .. } | Elem::Raw(_)),
+        PullTy::Chr => !matches!(e, Elem::Chr(_) | Elem::Raw(_)),
+        PullTy::NumList | PullTy::ChanList => !matches!(e, Elem::Expr(_) | Elem::Raw(_)),
+        _ => false,
+    }
+}
+
 enum Magnitude {
     /// far beyond any integer type (more than 40 integer digits)
     Huge,
@@ -504,15 +531,39 @@ impl<'a> Interp<'a> {
             self.calls.push(call);
             return UnitEnd::FailByHandler(e);
         }
+        if plan.swallow {
+            if let Some(f) = &u.pfault {
+                if !crate::gen::ELEMENT_FAULTS.contains(&f.kind.as_str()) {
+                    // separator-level faults interact with a tolerant handler in ways the
+                    // statement does not fix
+                    self.not_structural("tolerant handler with a separator fault");
+                }
+            }
+        }
         let mut pulled = 0usize;
+        let mut lex_broken = false;
         for (j, pull) in plan.pulls.iter().enumerate() {
             if pulled >= p {
-                // lexing breaks here
+                // lexing breaks here (and stays broken: the faulty element is never consumed)
                 call.pulls.push(ExpPull::Err(ExpErr::CommandClass));
+                if plan.swallow {
+                    lex_broken = true;
+                    continue;
+                }
                 self.calls.push(call);
                 return UnitEnd::FailByHandler(ExpErr::CommandClass);
             }
             if pulled < n {
+                if pull.ty != PullTy::Tok && clearly_wrong_type(pull.ty, &u.params[pulled]) {
+                    // a conversion that cannot succeed whatever the value: data type error
+                    call.pulls.push(ExpPull::Err(ExpErr::CommandClass));
+                    pulled += 1;
+                    if plan.swallow {
+                        continue;
+                    }
+                    self.calls.push(call);
+                    return UnitEnd::FailByHandler(ExpErr::CommandClass);
+                }
                 if pull.ty == PullTy::Tok {
                     match expected_tok(&u.params[pulled]) {
                         Some(t) => call.pulls.push(ExpPull::Tok(t)),
@@ -532,6 +583,9 @@ impl<'a> Interp<'a> {
                 pulled += 1;
             } else if pull.req {
                 call.pulls.push(ExpPull::Err(ExpErr::Code(-109)));
+                if plan.swallow {
+                    continue;
+                }
                 self.calls.push(call);
                 return UnitEnd::FailByHandler(ExpErr::Code(-109));
             } else {
@@ -584,6 +638,7 @@ impl<'a> Interp<'a> {
             self.unit_text[i] = Some(text);
         }
         self.calls.push(call);
+        let _ = lex_broken;
         // left-over check
         if pulled < n || p != usize::MAX {
             if p != usize::MAX {
